@@ -188,15 +188,21 @@ def check_request(cap: dict, x: dict, base_path: str = "/base") -> list:
     for u in x["unset"]["cookie"]:
         if u["name"] in jar and not u.get("has_default"):
             probs.append(("extra:cookie", f"unset optional cookie {u['name']!r} transmitted"))
-    exp_cookie_names = set(x["wire"]["cookie"]) | {u["name"] for u in x["unset"]["cookie"] if u.get("has_default")}
+    exp_cookie_names = set(x["wire"]["cookie"]) | {u["name"] for u in x["unset"]["cookie"] if u.get("has_default")} | set((x.get("client") or {}).get("extra_cookies") or {})
     for k in jar:
         if k not in exp_cookie_names:
             probs.append(("extra:cookie", f"unexpected cookie {k!r}"))
     for u in x["unset"]["query"]:
         if any(g[0] == u["name"] for g in cap["query"]) and not u.get("has_default"):
             probs.append(("extra:query", f"unset optional query parameter {u['name']!r} transmitted"))
-    # ---- auth
+    # ---- auth, client-level additions
     cl = x.get("client") or {}
+    for hn_, hv_ in (cl.get("extra_headers") or {}).items():
+        if hdrs.get(hn_.lower()) != [hv_]:
+            probs.append(("client_header", f"header {hn_!r} given through with_headers is {hdrs.get(hn_.lower())} expected [{hv_!r}]"))
+    for cn_, cv_ in (cl.get("extra_cookies") or {}).items():
+        if jar.get(cn_) != cv_:
+            probs.append(("client_cookie", f"cookie {cn_!r} given through with_cookies is {jar.get(cn_)!r} expected {cv_!r}"))
     if cl.get("auth"):
         hn = cl.get("auth_header_name", "Authorization").lower()
         prefix = cl.get("prefix", "Bearer")
